@@ -17,6 +17,7 @@ import (
 	"crypto/tls"
 	"crypto/x509"
 	"crypto/x509/pkix"
+	"database/sql"
 	"encoding/json"
 	"encoding/pem"
 	"flag"
@@ -36,6 +37,7 @@ import (
 	"time"
 
 	wapi "github.com/transparency-dev/witness/api"
+	"github.com/transparency-dev/witness/verifharness/internal/ref"
 	"github.com/transparency-dev/witness/verifharness/internal/world"
 	"golang.org/x/net/http2"
 )
@@ -843,4 +845,105 @@ func prodCrashOne(bin, dir string, params world.Params, h crashHist, j int, seed
 	rec.After = project(w, prodSnapshot(p2, w))
 	ev = append(ev, rec)
 	return ev, inflight, nil
+}
+
+// ---- prod-start: the production binary STARTS on a database an earlier incarnation left (C20: start-up is not an update request) ----
+
+func init() { commands["prod-start"] = prodStartMain }
+
+// prodStartMain starts the binary on database files written (by this harness, in the release's format) the way earlier incarnations of the witness
+// would have left them - cosigned by both current keys, by the legacy key only (before cosignature/v1 joined the signer set), by a key that has since
+// been rotated away, with a cosignature time in the future - waits a few poll intervals, and records what its read API serves and what its
+// /metrics endpoint counts: nobody has made a request, so every counter of every log is zero and the bytes are the ones in the file.
+func prodStartMain(args []string) error {
+	fs := flag.NewFlagSet("prod-start", flag.ExitOnError)
+	bin := fs.String("bin", "", "production binary")
+	out := fs.String("out", "", "trace")
+	dir := fs.String("dir", os.TempDir(), "scratch")
+	seed := fs.Int64("seed", 1, "seed")
+	_ = fs.Parse(args)
+	tw, err := newTraceWriter(*out)
+	if err != nil {
+		return err
+	}
+	n := 0
+	for _, cls := range []string{"both", "legacyonly", "rotated", "future1h", "foreign-lines"} {
+		tag := fmt.Sprintf("start-%s-%d", cls, *seed)
+		w := world.New(world.Params{Logs: []string{"l1", "l2"}, MaxSize: 3, NBranch: 2, ForkAt: []int{1}, MaxLines: 6, NWitKeys: 2, Embed: "id", Seed: *seed, RunTag: tag})
+		w = w.ForRun(tag, hashSeed(tag, *seed))
+		db := filepath.Join(*dir, fmt.Sprintf("prod-start-%s-%d-%d.db", cls, *seed, os.Getpid()))
+		os.Remove(db)
+		raw, err := sql.Open("sqlite3", db)
+		if err != nil {
+			return err
+		}
+		if _, err := raw.Exec(pinnedSchema); err != nil {
+			return err
+		}
+		rq := world.Req{Auth: "good", Old: 0, B: 0, N: 2, Pf: world.Pf{K: "empty"}}
+		if cls == "foreign-lines" {
+			rq.Extra = 2
+		}
+		c := w.Concretise("l1", rq, nil)
+		now := uint64(time.Now().Unix())
+		note := string(c.CP)
+		switch cls {
+		case "both", "foreign-lines":
+			note += w.WitKey.SignLegacy(c.Text) + w.WitKey.SignCosigV1(c.Text, now)
+		case "legacyonly":
+			note += w.WitKey.SignLegacy(c.Text)
+		case "rotated":
+			old := ref.NewKey(w.WitKey.Name, "the key before the rotation")
+			note += old.SignLegacy(c.Text) + old.SignCosigV1(c.Text, now-86400)
+		case "future1h":
+			note += w.WitKey.SignLegacy(c.Text) + w.WitKey.SignCosigV1(c.Text, now+3600)
+		}
+		if _, err := raw.Exec("INSERT OR REPLACE INTO chkpts (logID, chkpt, range) VALUES (?, ?, NULL)", c.LogID, []byte(note)); err != nil {
+			return err
+		}
+		raw.Close()
+		before := snapshot{raw: map[string][]byte{"l1": []byte(note)}}
+		rec := &linRecorder{}
+		rec.add(linEvent{E: "reset", Run: tag, Db0: project(w, before)})
+		p, err := startProd(prodCfg{Bin: *bin, Dir: *dir, Tag: tag, Yaml: prodYaml([]*world.World{w}), WitSKey: w.WitKey.SKey(), DB: db, Poll: 50 * time.Millisecond, Metrics: true})
+		if err != nil {
+			return err
+		}
+		time.Sleep(400 * time.Millisecond)
+		after := prodSnapshot(p, w)
+		m, merr := p.scrape()
+		alive := p.alive()
+		p.kill()
+		os.Remove(db)
+		os.Remove(db + "-journal")
+		if !alive {
+			return fmt.Errorf("run %s: the binary exited: %s", tag, tailOf(p.log.String(), 2000))
+		}
+		if merr != nil {
+			return merr
+		}
+		st := project(w, after)
+		if string(after.raw["l1"]) != note {
+			// the bytes served are not the bytes in the file: make the projection say so whatever it parses to
+			cp := st["l1"]
+			cp.Lines = 99
+			st["l1"] = cp
+		}
+		rec.add(linEvent{E: "final", Run: tag, Stored: st})
+		ctr := map[string]Ctr{}
+		for name, l := range w.Logs {
+			ctr[name] = Ctr{Attempt: m["witness_update_request"][l.ID], Success: m["witness_update_success"][l.ID],
+				BadProof: m["witness_update_invalid_consistency"][l.ID], Inconsistent: m["witness_update_inconsistent_checkpoints"][l.ID]}
+		}
+		rec.add(linEvent{E: "metrics", Run: tag, Ctr: ctr})
+		if err := tw.writeRun(rec.ev); err != nil {
+			return err
+		}
+		n++
+	}
+	if err := tw.Close(); err != nil {
+		return err
+	}
+	fmt.Printf("PROD-START runs=%d\n", n)
+	return nil
 }
